@@ -236,7 +236,7 @@ func c16Sequence(r *rep.Reporter, kind string, si int, fixed time.Time, bases []
 		r.Count("op_"+opname, 1)
 		pa := P.Do(l.pathStyle("s3.example.test"))
 		// H: any host whose first label is the bucket
-		hHost := l.Bucket + []string{".localhost", ".s3.example.test", ".anything.at.all:8080"}[rng.Intn(3)]
+		hHost := l.Bucket + []string{".localhost", ".s3.example.test", ".anything.at.all:8080", ".s3-eu-west-1.amazonaws.com", ".s3.dualstack.us-east-1.amazonaws.com:443"}[rng.Intn(5)]
 		ha := H.Do(l.hostStyle(hHost))
 		// HB: <bucket>.<base> for either configured base
 		base := bases[rng.Intn(len(bases))]
@@ -298,13 +298,19 @@ func c16Sequence(r *rep.Reporter, kind string, si int, fixed time.Time, bases []
 					break
 				}
 			}
-			// trailing slash in host style
-			q := l.hostStyle(l.Bucket + "." + bases[0])
-			if q.Path != "/" {
-				q.Path += "/"
-				va := HB.Do(q)
-				if normResp(va) != normResp(canon) {
-					report("slash-variant-differs", "host-trailing-slash", l, canon, va, fmt.Sprintf("host-style path %q answers %s, canonical answers %s", q.Path, va, canon))
+			// trailing slashes in host style, on both host-style servers
+			for _, tail := range []string{"/", "//"} {
+				for hi, hs := range []*drv.Server{HB, H} {
+					q := l.hostStyle(l.Bucket + "." + bases[0])
+					if q.Path == "/" {
+						continue
+					}
+					q.Path += tail
+					va := hs.Do(q)
+					r.Count("slash_variants", 1)
+					if normResp(va) != normResp(canon) {
+						report("slash-variant-differs", fmt.Sprintf("host-trailing-slash-%d", hi), l, canon, va, fmt.Sprintf("host-style path %q answers %s, canonical answers %s", q.Path, va, canon))
+					}
 				}
 			}
 		}
